@@ -48,6 +48,23 @@ func (k *c17Ctx) describeAs(name, tag string, data []byte) {
 		fmt.Fprintln(os.Stderr, "c17:", err)
 		os.Exit(1)
 	}
+	k.describeFile(p, tag, data)
+}
+
+// describeExisting: a file that is already there and whose size, as stat reports it, need not be the
+// number of bytes it yields (every procfs file has size 0): the kernel's boot_id is one canonical UUID
+func (k *c17Ctx) describeExisting(p, tag string) {
+	data, err := os.ReadFile(p)
+	if err != nil || len(data) == 0 || len(data) > 4096 {
+		return
+	}
+	if again, err := os.ReadFile(p); err != nil || !bytes.Equal(again, data) {
+		return // content changes from read to read: not a function of name and content
+	}
+	k.describeFile(p, tag, data)
+}
+
+func (k *c17Ctx) describeFile(p, tag string, data []byte) {
 	base := file.Info{Path: p, Size: int64(len(data))}
 	preds := file.VerifRowPredicates(p, data, int64(len(data)))
 	oracle := SL{}
@@ -234,6 +251,7 @@ func genC17(c *Ctx) {
 			k.describe("corpus-"+c17FormNames[fi], setCase(R, f, 1))
 		}
 		k.describe("corpus-ws", []byte(" "+v+"\n"))
+		k.describeExisting("/proc/sys/kernel/random/boot_id", "procfs-size-0")
 		c17Lib(c, "corpus", u)
 	}
 	w := "1EC9414C-232A-6B00-B3C8-9E6BDECED846"
